@@ -16,15 +16,21 @@ Model/DutchV2.vos Model/DutchV2.vok Model/DutchV2.required_vos: Model/DutchV2.v 
 Model/Market.vo Model/Market.glob Model/Market.v.beautified Model/Market.required_vo: Model/Market.v Lib/Base.vo
 Model/Market.vio: Model/Market.v Lib/Base.vio
 Model/Market.vos Model/Market.vok Model/Market.required_vos: Model/Market.v Lib/Base.vos
+Proofs/DutchProofsBid.vo Proofs/DutchProofsBid.glob Proofs/DutchProofsBid.v.beautified Proofs/DutchProofsBid.required_vo: Proofs/DutchProofsBid.v Lib/Base.vo Lib/DecArith.vo Lib/DecFacts.vo Model/DutchV2.vo Proofs/DutchProofsPrice.vo
+Proofs/DutchProofsBid.vio: Proofs/DutchProofsBid.v Lib/Base.vio Lib/DecArith.vio Lib/DecFacts.vio Model/DutchV2.vio Proofs/DutchProofsPrice.vio
+Proofs/DutchProofsBid.vos Proofs/DutchProofsBid.vok Proofs/DutchProofsBid.required_vos: Proofs/DutchProofsBid.v Lib/Base.vos Lib/DecArith.vos Lib/DecFacts.vos Model/DutchV2.vos Proofs/DutchProofsPrice.vos
+Proofs/DutchProofsClose.vo Proofs/DutchProofsClose.glob Proofs/DutchProofsClose.v.beautified Proofs/DutchProofsClose.required_vo: Proofs/DutchProofsClose.v Lib/Base.vo Lib/DecArith.vo Lib/DecFacts.vo Model/DutchV2.vo Proofs/DutchProofsPrice.vo Proofs/DutchProofsBid.vo
+Proofs/DutchProofsClose.vio: Proofs/DutchProofsClose.v Lib/Base.vio Lib/DecArith.vio Lib/DecFacts.vio Model/DutchV2.vio Proofs/DutchProofsPrice.vio Proofs/DutchProofsBid.vio
+Proofs/DutchProofsClose.vos Proofs/DutchProofsClose.vok Proofs/DutchProofsClose.required_vos: Proofs/DutchProofsClose.v Lib/Base.vos Lib/DecArith.vos Lib/DecFacts.vos Model/DutchV2.vos Proofs/DutchProofsPrice.vos Proofs/DutchProofsBid.vos
 Proofs/DutchProofsPrice.vo Proofs/DutchProofsPrice.glob Proofs/DutchProofsPrice.v.beautified Proofs/DutchProofsPrice.required_vo: Proofs/DutchProofsPrice.v Lib/Base.vo Lib/DecArith.vo Lib/DecFacts.vo Model/DutchV2.vo
 Proofs/DutchProofsPrice.vio: Proofs/DutchProofsPrice.v Lib/Base.vio Lib/DecArith.vio Lib/DecFacts.vio Model/DutchV2.vio
 Proofs/DutchProofsPrice.vos Proofs/DutchProofsPrice.vok Proofs/DutchProofsPrice.required_vos: Proofs/DutchProofsPrice.v Lib/Base.vos Lib/DecArith.vos Lib/DecFacts.vos Model/DutchV2.vos
 Proofs/MarketProofs.vo Proofs/MarketProofs.glob Proofs/MarketProofs.v.beautified Proofs/MarketProofs.required_vo: Proofs/MarketProofs.v Lib/Base.vo Model/Market.vo
 Proofs/MarketProofs.vio: Proofs/MarketProofs.v Lib/Base.vio Model/Market.vio
 Proofs/MarketProofs.vos Proofs/MarketProofs.vok Proofs/MarketProofs.required_vos: Proofs/MarketProofs.v Lib/Base.vos Model/Market.vos
-Properties/C10.vo Properties/C10.glob Properties/C10.v.beautified Properties/C10.required_vo: Properties/C10.v Lib/Base.vo Lib/DecArith.vo Model/DutchV2.vo Proofs/DutchProofsPrice.vo
-Properties/C10.vio: Properties/C10.v Lib/Base.vio Lib/DecArith.vio Model/DutchV2.vio Proofs/DutchProofsPrice.vio
-Properties/C10.vos Properties/C10.vok Properties/C10.required_vos: Properties/C10.v Lib/Base.vos Lib/DecArith.vos Model/DutchV2.vos Proofs/DutchProofsPrice.vos
+Properties/C10.vo Properties/C10.glob Properties/C10.v.beautified Properties/C10.required_vo: Properties/C10.v Lib/Base.vo Lib/DecArith.vo Model/DutchV2.vo Proofs/DutchProofsPrice.vo Proofs/DutchProofsBid.vo Proofs/DutchProofsClose.vo
+Properties/C10.vio: Properties/C10.v Lib/Base.vio Lib/DecArith.vio Model/DutchV2.vio Proofs/DutchProofsPrice.vio Proofs/DutchProofsBid.vio Proofs/DutchProofsClose.vio
+Properties/C10.vos Properties/C10.vok Properties/C10.required_vos: Properties/C10.v Lib/Base.vos Lib/DecArith.vos Model/DutchV2.vos Proofs/DutchProofsPrice.vos Proofs/DutchProofsBid.vos Proofs/DutchProofsClose.vos
 Properties/C17.vo Properties/C17.glob Properties/C17.v.beautified Properties/C17.required_vo: Properties/C17.v Lib/Base.vo Model/Market.vo Proofs/MarketProofs.vo
 Properties/C17.vio: Properties/C17.v Lib/Base.vio Model/Market.vio Proofs/MarketProofs.vio
 Properties/C17.vos Properties/C17.vok Properties/C17.required_vos: Properties/C17.v Lib/Base.vos Model/Market.vos Proofs/MarketProofs.vos
